@@ -83,6 +83,7 @@ func init() {
 	reg(&spec{ID: "C15", Pkg: "./harness/c15", Level: "exploration", ShardsQ: n, ShardsT: n, DeadQ: 240, DeadT: 1800,
 		InstrFiles: []instrSpec{{File: "terminfo/terminfo.go", Time: true}}})
 	reg(&spec{ID: "C17", Pkg: "./harness/c17", Level: "exploration", ShardsQ: n, ShardsT: n, DeadQ: 240, DeadT: 2400, InstrFiles: tinfo})
+	reg(&spec{ID: "C18", Pkg: "./harness/c18", Level: "model_checking", ShardsQ: n, ShardsT: n, DeadQ: 240, DeadT: 2400})
 	reg(&spec{ID: "C20", Pkg: "./harness/c20", Level: "model_checking", ShardsQ: n, ShardsT: n, DeadQ: 240, DeadT: 1800})
 	reg(&spec{ID: "C16", Pkg: "./harness/c16", Level: "exploration", ShardsQ: n, ShardsT: n, DeadQ: 150, DeadT: 1500})
 }
